@@ -96,10 +96,7 @@ class Builder:
             kw = {}
             if role is not None and S.roles is not None:
                 kw["role"] = getattr(S.roles, role)
-            if via == "flipped" and flipped:
-                bi = h.flipped(S(**kw))
-            else:
-                bi = S(flipped=bool(flipped), **kw)
+            bi = self._flip(S, kw, flipped, via)
             B.add(bi, name=name)
         self._bundles[k] = B
         return B
@@ -113,6 +110,18 @@ class Builder:
         kw = {"port": bool(port)}
         if role is not None and B.roles is not None:
             kw["role"] = getattr(B.roles, role)
+        return self._flip(B, kw, flipped, via)
+
+    def _flip(self, B, kw, flipped, via):
+        """Create an instance of bundle B whose effective flip state is `flipped`, written as `via` says:
+        'ctor' (constructor flag), 'flipped' (h.flipped() of an unflipped instance), or 'c<0|1>f<n>'
+        (constructor flag then n applications of h.flipped(); effective = flag xor (n odd))."""
+        h = self.h
+        if isinstance(via, str) and len(via) == 4 and via[0] == "c" and via[2] == "f":
+            bi = B(flipped=(via[1] == "1"), **kw)
+            for _ in range(int(via[3])):
+                bi = h.flipped(bi)
+            return bi
         if via == "flipped" and flipped:
             return h.flipped(B(**kw))
         return B(flipped=bool(flipped), **kw)
